@@ -7,6 +7,10 @@ HOOK_COMMITS = ["189fd6a"]
 
 # id -> (technique, level text, level note, design ref)
 CLAIMED = {
+ "C18": ("Lean 4 invariant proof over all operation sequences and all resolutions of the nondeterminism of an abstract pool model + validation of recorded concurrent histories of the real pool by the proved-sound Lean validator and an independent Go oracle",
+         "Proof: for every sequence of acquire/release/double release/release nil/gc and every nondeterministic choice (which pooled id is popped, mint, what GC drops) pooled and held ids are pairwise distinct, ids are >= 1, texts are the format applied to the id and injective in the id; release clears and is idempotent; the history validator is sound (accepted history => no two live names share id or text) and complete for model histories. Real concurrent histories (1..64 goroutines, forced GC, -race child in the thorough tier) are recorded and validated.",
+         "Trusted: Lean kernel; linearizability of sync.Pool and atomic.AddUint64 (what lets a concurrent history be read as a sequence); logged live intervals lie inside the real ones; a Name is not copied by value; uint64 wrap-around not modelled. Concurrency itself (the Go memory model, the scheduler) is outside the theorem: partial by nature, the race detector run is supporting evidence.",
+         "DESIGN.md §7 C18"),
  "C01": ("Lean 4 invariant proof over the transcribed transmit path (QueuePackage/sendPackets/sendPacket/SendRemainingPackets on the PacketQueue model) + packet-level correspondence with the real Channel over a capturing transport",
          "Proof: for every packet size 9..65535 (containing the negotiable 256..65535), header type, channel id, start number, every list of package encodings and therefore every split over QueuePackage/SendPackage calls, the packets written are exactly: full bodies without EOM followed by one last packet of 1..body-size bytes with EOM, bodies concatenating to the encodings, header length = 8 + body, type/channel/consecutive numbers stamped; the independent wire reader parses the serialised bytes back to these packets; after the flush nothing is left behind; by induction the same for any sequence of messages with packet size changes between them. The exact-multiple defect was found by this check and repaired (fix commit 95c215f).",
          "Trusted: Lean kernel; hand transcription of channel.go's transmit path tied to the code by the harness (hdr/length/digest of every packet on the wire and queue state compared); packages modelled by their encoding; contexts, LastPkg acceptors and transport write errors not modelled.",
